@@ -153,7 +153,15 @@ func (c *Ctx) ruleReconnectResumes(rr *RuleRep) {
 		e := m.ConnOK[0]
 		first := e.B.Succs[e.K].Instrs[0]
 		goal := func(in ssa.Instruction) bool { return realExit(in) || in == ssa.Instruction(m.Dial) }
-		block := func(in ssa.Instruction) bool { return in == ssa.Instruction(m.Retry) }
+		rcRetryM := c.Method("RetryClient", "Retry")
+		block := func(in ssa.Instruction) bool {
+			if in == ssa.Instruction(m.Retry) {
+				return true
+			}
+			// the call written once per branch (`established` with early returns: first connection / session kept / resubscribe)
+			k, ok := in.(*ssa.Call)
+			return ok && rcRetryM != nil && c.StaticCalleeOf(&k.Call) == rcRetryM && len(k.Call.Args) == len(m.Retry.Call.Args) && c.Resolve(k.Call.Args[0]) == c.Resolve(m.Retry.Call.Args[0])
+		}
 		if block(first) {
 			rr.OK(key+"/retry-after-connect", m.Retry.Pos(), "Retry() follows every successful Connect")
 		} else if w, found := CanReach(f, first, goal, PathQ{BlockInstr: block}); found || goal(first) {
